@@ -840,12 +840,18 @@ int x509_general_name_to_der(int choice, const uint8_t *d, size_t dlen, uint8_t 
 		return 0;
 	}
 	switch (choice) {
+	// otherName, x400Address, directoryName, ediPartyName are constructed, as x509_general_name_from_der expects
 	case X509_gn_other_name:
-	case X509_gn_rfc822_name:
-	case X509_gn_dns_name:
 	case X509_gn_x400_address:
 	case X509_gn_directory_name:
 	case X509_gn_edi_party_name:
+		if ((ret = asn1_type_to_der(ASN1_TAG_EXPLICIT(choice), d, dlen, out, outlen)) != 1) {
+			if (ret < 0) error_print();
+			return ret;
+		}
+		break;
+	case X509_gn_rfc822_name:
+	case X509_gn_dns_name:
 	case X509_gn_uniform_resource_identifier:
 	case X509_gn_ip_address:
 	case X509_gn_registered_id:
